@@ -62,6 +62,7 @@ def splice_blocks(prog: Program, fn: FuncInfo, depth: int = 3) -> FuncNode:
     counter = 0
     for _ in range(depth):
         changed = False
+        nested = {n.name: n for n in ast.walk(root) if isinstance(n, (ast.FunctionDef, ast.AsyncFunctionDef)) and n is not root}
         for suite in list(_suite_lists(root)):
             i = 0
             while i < len(suite):
@@ -69,6 +70,10 @@ def splice_blocks(prog: Program, fn: FuncInfo, depth: int = 3) -> FuncNode:
                 val = s.value if isinstance(s, (ast.Expr, ast.Assign, ast.AnnAssign, ast.Return)) else None
                 call = unawait(val) if val is not None else None
                 tgt = private_callee(prog, fn, call) if isinstance(call, ast.Call) else None
+                if tgt is None and isinstance(call, ast.Call) and isinstance(call.func, ast.Name) and call.func.id in nested \
+                        and not any(s is x for x in ast.walk(nested[call.func.id])):
+                    # a closure defined in this very function: its free variables are this function's locals
+                    tgt = FuncInfo(call.func.id, fn.module, nested[call.func.id], None, fn)
                 if tgt is None or counter >= 24 or _simple_helper(tgt.node) is None or tgt.is_async != isinstance(val, ast.Await) \
                         or any(isinstance(x, (ast.Yield, ast.YieldFrom, ast.Global, ast.Nonlocal)) for x in ast.walk(tgt.node)):
                     i += 1
@@ -111,7 +116,14 @@ def splice_blocks(prog: Program, fn: FuncInfo, depth: int = 3) -> FuncNode:
 def spliced(prog: Program, fn: FuncInfo) -> FuncInfo:
     """`fn` with simple private helpers spliced into its body (analysis-only copy)."""
     node = splice_blocks(prog, fn)
-    return FuncInfo(fn.name, fn.module, inline_helpers(prog, fn, node=node), fn.cls, fn.outer)
+    # the engine's substitution-based splicer cannot bind parameters a helper re-assigns: leave those calls alone
+    cands = list(fn.module.functions.values()) + (list(fn.cls.methods.values()) if fn.cls is not None else [])
+    rebinds = set()
+    for h in cands:
+        ps = {a.arg for a in h.node.args.posonlyargs + h.node.args.args + h.node.args.kwonlyargs}
+        if any(isinstance(x, ast.Name) and isinstance(x.ctx, (ast.Store, ast.Del)) and x.id in ps for x in ast.walk(h.node)):
+            rebinds.add(h.name)
+    return FuncInfo(fn.name, fn.module, inline_helpers(prog, fn, node=node, exclude=rebinds), fn.cls, fn.outer)
 
 
 # ---------------------------------------------------------------------------------------------
@@ -660,3 +672,50 @@ def stmt_patch(fn: FuncInfo, node: ast.AST, edit: Callable[[str], str]) -> tuple
 
 def indent_of(line: str) -> str:
     return line[: len(line) - len(line.lstrip())]
+
+
+# ---------------------------------------------------------------------------------------------
+class HelperCalls:
+    """Mixin for sa.engine.absint.Interp subclasses: a call of a private function of the analysed
+    module, or of a (non-property) method the analysed class defines or inherits, is *interpreted* in
+    the same abstract run -- several returns, tuple results, re-assigned parameters, try/except in the
+    helper are all just code.  Set `helper_prog` / `helper_module` / `helper_cls` before exploring.
+    `helper_keep` names methods the concrete interpreter models itself (they are left to it)."""
+
+    helper_prog: Any = None
+    helper_module: Any = None
+    helper_cls: Any = None
+    helper_keep: tuple[str, ...] = ()
+
+    def bind_helpers(self, prog: Program, fn: FuncInfo, keep: Iterable[str] = ()) -> Any:
+        self.helper_prog, self.helper_module, self.helper_cls = prog, fn.module, fn.cls
+        self.helper_keep = tuple(keep)
+        return self
+
+    def unknown_name(self, ident: str, node: ast.AST) -> Any:
+        from ..engine.absint import Closure
+
+        m = self.helper_module
+        if m is not None and ident in m.functions:
+            return Closure(m.functions[ident].node, {})
+        return super().unknown_name(ident, node)  # type: ignore[misc]
+
+    def get_attr(self, base: Any, attr: str, node: ast.AST) -> Any:
+        from ..engine.absint import Closure, Obj
+
+        if isinstance(base, Obj) and attr not in base.fields and attr not in self.helper_keep \
+                and self.helper_cls is not None and self.helper_prog is not None and getattr(base, "cls", None) in ("self", "Builder"):
+            meth = self.helper_prog.resolve_method(self.helper_cls, attr)
+            if meth is not None:
+                decos = {u(d) for d in meth.node.decorator_list}
+                if "staticmethod" in decos:
+                    return Closure(meth.node, {})
+                if not (decos & {"property", "abstractmethod"}) and not any(d.endswith(".setter") for d in decos):
+                    return ("boundmethod", meth.node, base)
+        return super().get_attr(base, attr, node)  # type: ignore[misc]
+
+    def apply_other(self, fn: Any, pos: list[Any], kw: dict[str, Any], node: ast.AST) -> Any:
+        if isinstance(fn, tuple) and fn and fn[0] == "boundmethod":
+            args = self.bind_args(fn[1], pos, kw, self_value=fn[2])  # type: ignore[attr-defined]
+            return self.call_node(fn[1], args, {})  # type: ignore[attr-defined]
+        return super().apply_other(fn, pos, kw, node)  # type: ignore[misc]
